@@ -29,11 +29,16 @@ func New(config Configuration, statsdClient *statsd.Client) (*SSOProxy, error) {
 
 	hostRouter := hostmux.NewRouter()
 	for _, upstreamConfig := range config.UpstreamConfigs.upstreamConfigs {
+		// the upstream's own provider_slug (resolved from its options or the default) selects its provider
+		providerConfigs := config.UpstreamConfigs
+		if upstreamConfig.ProviderSlug != "" {
+			providerConfigs.DefaultConfig.ProviderSlug = upstreamConfig.ProviderSlug
+		}
 		provider, err := newProvider(
 			config.ClientConfig,
 			config.ProviderConfig,
 			config.SessionConfig,
-			config.UpstreamConfigs,
+			providerConfigs,
 			statsdClient,
 		)
 		if err != nil {
